@@ -268,7 +268,41 @@ func (s *state) runCase(e *entry, spec caseSpec) {
 			c.Violation(e.name+"/<self>/"+op.name+"/no-copy", det(map[string]any{"got": fmt.Sprintf("%T", res)}))
 			continue
 		}
+		// siblings: a second copy of the same original and a copy of the copy, taken before anything is mutated.
+		// Copies must be independent of each other too, not only of their original (a shared sentinel or a
+		// cached copy passes every original-vs-copy test).
+		var sibFindings []finding
+		if !op.useDirty {
+			var res2, res3 any
+			p2, _ := mon.Guard(func() { res2 = op.call(orig.Interface(), nil) })
+			p3, _ := mon.Guard(func() { res3 = op.call(cp.Interface(), nil) })
+			c.Eval(2)
+			root := pathT{owner: e.name}
+			var L1, L2, L3 []loc
+			s.w.collect(cp, root, &L1, 0)
+			rel := []struct {
+				name string
+				ok   bool
+				res  any
+				into *[]loc
+			}{{"second-copy-of-the-same-original", !p2, res2, &L2}, {"copy-of-the-copy", !p3, res3, &L3}}
+			for _, x := range rel {
+				v := reflect.ValueOf(x.res)
+				if !x.ok || !v.IsValid() || v.Type() != ptrT || v.IsNil() {
+					continue // the first call of this op succeeded; a differing second call is oracle 1's business below
+				}
+				s.w.collect(v, root, x.into, 0)
+				var ost overlapStats
+				for _, o := range overlaps(L1, *x.into, &ost) {
+					sibFindings = append(sibFindings, finding{o.b.pt, "copies-share-memory/" + x.name + "/" + o.class, map[string]any{
+						"path_in_first_copy": o.a.pt.full, "path_in_other_copy": o.b.pt.full, "other_copy_is": x.name,
+						"first_copy_range": fmt.Sprintf("[%#x,%#x)", o.a.lo, o.a.hi), "other_copy_range": fmt.Sprintf("[%#x,%#x)", o.b.lo, o.b.hi)}})
+				}
+				c.Count("sibling_copies_compared", 1)
+			}
+		}
 		j := s.judge(e.name, orig, cp)
+		j.findings = append(j.findings, sibFindings...)
 		for _, h := range j.harness {
 			c.Inconclusive("oracle 3: " + h + " (" + e.name + ")")
 		}
